@@ -30,8 +30,9 @@ def find {α β : Type} [DecidableEq α] : List (α × β) → α → Option β
   | [], _ => none
   | (a, b) :: m, x => if a = x then some b else find m x
 
-def erase {α β : Type} [DecidableEq α] (m : List (α × β)) (a : α) : List (α × β) :=
-  m.filter (fun p => decide (p.1 ≠ a))
+def erase {α β : Type} [DecidableEq α] : List (α × β) → α → List (α × β)
+  | [], _ => []
+  | (a', b') :: m, a => if a' = a then erase m a else (a', b') :: erase m a
 
 /-- Go `m[a] = b` -/
 def insert {α β : Type} [DecidableEq α] (m : List (α × β)) (a : α) (b : β) : List (α × β) :=
@@ -302,6 +303,27 @@ def Sys.run (H : Key → Hash) (s : Sys) (as : List Act) : Sys := as.foldl (Sys.
 def Sys.start (st : St) (ops : List Op) : Sys := { st := st, threads := ops.map Op.thread }
 
 def Sys.quiescent (s : Sys) : Prop := (∀ t ∈ s.threads, t.prog = []) ∧ s.st.pending = false ∧ s.st.saverBusy = false
+
+/-! ### segment boundaries of a program (used to state what a thread can be about to do) -/
+
+def afterUnlock : List Step → List Step
+  | [] => []
+  | s :: rest => if s = .unlock then rest else afterUnlock rest
+
+/-- the rest of a program after its first atomic segment (when no guard ended the call) -/
+def dropSeg : List Step → List Step
+  | [] => []
+  | .lock :: rest => afterUnlock rest
+  | _ :: rest => rest
+
+/-- a program and everything that can remain of it at a segment boundary -/
+def cutsOf : Nat → List Step → List (List Step)
+  | 0, p => [p]
+  | n + 1, p => p :: (if p = [] then [] else cutsOf n (dropSeg p))
+
+def progs : List (List Step) := [addProg, updateProg, deleteProg, loadProg]
+
+def allCuts : List (List Step) := progs.flatMap (fun p => cutsOf p.length p)
 
 /-! ### what a client observes -/
 
